@@ -1,5 +1,5 @@
 """C08 — validation is total: any Python value yields a result, and failing is reporting."""
-from .. import encode, gen_value, runner, valcases, valcorr
+from .. import encode, gen_value, model, runner, sexp, valcases, valcorr
 from ..common import d42  # noqa: F401
 from d42 import validate
 from d42.validation import Formatter, ValidationException, validate_or_fail
@@ -68,6 +68,97 @@ def oracle(ctx, cases):
             ctx.violation("validate_or_fail raised " + type(e).__name__, schema=repr(c.schema), value=repr(c.value))
 
 
+_KIND = {"Type": "type", "Value": "value", "MinValue": "min", "MaxValue": "max", "Length": "len", "MinLength": "minlen",
+         "MaxLength": "maxlen", "Alphabet": "alphabet", "Substr": "substr", "Regex": "regex", "MissingElement": "missingelem",
+         "ExtraElement": "extraelem", "MissingKey": "missingkey", "ExtraKey": "extrakey", "SchemaMismatch": "mismatch",
+         "InvalidUUIDVersion": "uuidversion"}
+
+
+def format_correspondence(ctx, cases):
+    """the model of the formatter (which path a message names, the printed length, the one raise point) and of
+    validate_or_fail against the real ones: for every case with errors the multiset of (kind, named path, printed length)
+    read off the REAL rendered messages equals the model's; exceptions agree; validate_or_fail's outcome agrees"""
+    import re as _re
+    fmt = Formatter()
+    todo = [c for c in cases if c.req is not None and c.real_exc is None and c.real][: ctx.n(2500, 20000)]
+    reqs, exp = [], []
+    for c in todo:
+        want = []
+        exc = None
+        for e in c.real:
+            try:
+                m = e.format(fmt)
+            except Exception as x:  # noqa: BLE001
+                exc = type(x).__name__
+                break
+            kind = _KIND.get(type(e).__name__.replace("ValidationError", ""), "?")
+            # the path the message names: the error's own path, or that path extended by the missing index / key
+            import copy as _copy
+            cands = [e.path]        # PathHolder indexing appends IN PLACE: always index a copy
+            if kind == "missingelem":
+                cands.append(_copy.deepcopy(e.path)[e.index])
+            if kind == "missingkey":
+                cands.append(_copy.deepcopy(e.path)[e.missing_key])
+            named = None
+            for pth in sorted(cands, key=len, reverse=True):
+                if len(pth) == 0 or fmt._format_path(pth) in m:
+                    named = pth
+                    break
+            n = None
+            if kind in ("len", "minlen", "maxlen"):
+                mm = _re.search(r"(\d+) (?:element|symbol|item|character|byte|key)", m) or _re.search(r"but (\d+)", m) or _re.search(r"has (\d+)", m)
+                n = int(mm.group(1)) if mm else None
+            try:
+                want.append(sexp.dumps([kind, encode.canon_model_path(encode.tostr(encode.enc_path(named, c.I))) if named is not None else "?",
+                                        str(n) if n is not None else "_"]))
+            except Exception:  # noqa: BLE001
+                want = None
+                break
+        if want is None:
+            continue
+        reqs.append(["vformat"] + c.req[2:])
+        exp.append((c, ("exc", exc) if exc else ("ok", sorted(want))))
+    res = model.run_batch(reqs)
+    bad = 0
+    for r, (c, want) in zip(res, exp):
+        ctx.count("format_corr_cases")
+        if isinstance(r, str):
+            got = ("driver", r)
+        elif r[0] == "exc":
+            got = ("exc", r[1] if isinstance(r[1], str) else r[1][0])
+        else:
+            got = ("ok", sorted(sexp.dumps([m[1], encode.canon_model_path(m[2]), m[3]]) for m in r[1]))
+        if got != want:
+            bad += 1
+            if bad <= 5:
+                ctx.breakage("correspondence", "what the rendered messages name (kind, path, printed length) differs between the "
+                             "formatter model and the real Formatter", schema=repr(c.schema), value=repr(c.value),
+                             detail=f"real  {want}\nmodel {got}")
+    ctx.cov["format_corr_disagreements"] = bad
+    # validate_or_fail
+    reqs, exp = [], []
+    for c in [c for c in cases if c.req is not None][: ctx.n(2500, 20000)]:
+        try:
+            out = ("ok", "1") if validate_or_fail(c.schema, c.value) is True else ("ok", "?")
+        except ValidationException as e:
+            out = ("exc", ["ValidationException", str(len(str(e).split("\n - ")) - 1)])
+        except Exception as e:  # noqa: BLE001
+            out = ("exc", type(e).__name__)
+        reqs.append(["vof"] + c.req[2:])
+        exp.append((c, out))
+    res = model.run_batch(reqs)
+    bad = 0
+    for r, (c, want) in zip(res, exp):
+        ctx.count("vof_corr_cases")
+        got = ("driver", r) if isinstance(r, str) else (r[0], r[1])
+        if got != want:
+            bad += 1
+            if bad <= 5:
+                ctx.breakage("correspondence", "validate_or_fail outcome differs between model and code", schema=repr(c.schema),
+                             value=repr(c.value), detail=f"real  {want}\nmodel {got}")
+    ctx.cov["vof_corr_disagreements"] = bad
+
+
 def run(ctx):
     runner.prove(ctx, MODULE, THEOREMS, FILES)
     n = ctx.n(60, 400)
@@ -93,6 +184,7 @@ def run(ctx):
         ctx.breakage("correspondence", "validator view (error multiset) differs between model and code",
                      schema=repr(c.schema), value=repr(c.value), detail=detail, request=c.req)
     ctx.cov["corr_disagreements"] = len(dis)
+    format_correspondence(ctx, cases)
     if not ctx.quick():
         # thorough: the whole small scope (every other schema; C02 / C03 cover the rest), outcome and full error lists
         from .. import smallscope
